@@ -467,7 +467,8 @@ def c16_case(spec, res, batch, tag):
     res.evaluations += 1
     before = {o.jid: {r.jid for r in getattr(o, "required", ())} for o in objs}
     enc = encode(objs)
-    ret1 = try_call(top.sanitize)
+    sv = spec.get("sv")                     # the `verbose` argument of sanitize(): None = the object's attribute
+    ret1 = try_call(top.sanitize) if sv is None else try_call(top.sanitize, verbose=sv)
     obs = "%s R=%s" % (str(ret1[1]).lower() if ret1[0] == "ok" else ret1, show_reqs(objs))
     batch.add("sanitize", case, "sanitize %s s=0" % enc, obs)
     scheds = subtree_scheds(spec, 0)
@@ -516,6 +517,7 @@ def run_C16(tier, seed, res, drv, replay=None):
             c16_case(spec, res, batch, "exh")
     for i in range(2000 if tier == "quick" else 40000):
         spec = random_tree(rng, dangling=rng.choice([0, 0.1, 0.3, 0.6]), p_sched=rng.choice([0.2, 0.4]))
+        spec["sv"] = [None, None, True, False][i % 4]
         c16_case(spec, res, batch, "rand")
         if len(batch.items) > 20000:
             batch.flush()
